@@ -26,8 +26,13 @@ def find_def(tree, qual):
     node = tree
     for p in parts:
         found = None
+        want_setter = p.endswith('@setter')
+        p = p.replace('@setter', '')
         for ch in ast.walk(node) if isinstance(node, (ast.FunctionDef,)) else ast.iter_child_nodes(node):
             if isinstance(ch, (ast.FunctionDef, ast.ClassDef, ast.AsyncFunctionDef)) and ch.name == p and ch is not node:
+                is_setter = any(isinstance(d, ast.Attribute) and d.attr == 'setter' for d in getattr(ch, 'decorator_list', []))
+                if is_setter != want_setter:
+                    continue
                 found = ch
                 break
         if found is None:
